@@ -341,6 +341,9 @@ type parent struct {
 	dkg         []*dkgRun
 	harnessEr   []string
 	samples     int
+	sampled     map[string]bool
+	crashMin    map[string][][]int
+	crashMinDKG map[string][][]int
 	aborted     bool
 }
 
@@ -501,6 +504,23 @@ func (p *parent) crashFn(ui, k int, announced, stderr string, hung bool) {
 	if hung {
 		kind = "hang"
 	}
+	// a crash already minimised for this function whose off-baseline values all occur in this
+	// tuple is the same defect: count it, do not re-run it
+	p.mu.Lock()
+	for _, m := range p.crashMin[f.Name] {
+		same := true
+		for i, pr := range f.Params {
+			if m[i] != pr.Base && m[i] != idx[i] {
+				same = false
+			}
+		}
+		if same && !hung {
+			p.vioHits["crash:"+f.Name+":"+f.classKey(m)]++
+			p.mu.Unlock()
+			return
+		}
+	}
+	p.mu.Unlock()
 	spawns := 0
 	confirmed, cstderr := false, ""
 	if !hung {
@@ -526,6 +546,11 @@ func (p *parent) crashFn(ui, k int, announced, stderr string, hung bool) {
 		}
 		stderr = cstderr
 	}
+	if confirmed {
+		p.mu.Lock()
+		p.crashMin[f.Name] = append(p.crashMin[f.Name], min)
+		p.mu.Unlock()
+	}
 	key := kind + ":" + f.Name + ":" + f.classKey(min)
 	what := fmt.Sprintf("worker process died while executing this case (%s); reproduced in isolation: %v", deathSummary(stderr), confirmed)
 	if hung {
@@ -542,6 +567,15 @@ func (p *parent) crashDKG(ui int, path []int, stderr string, hung bool) {
 	if hung {
 		kind = "hang"
 	}
+	p.mu.Lock()
+	for _, m := range p.crashMinDKG[d.Name] {
+		if isSubsequence(m, path) && !hung {
+			p.vioHits["crash-duplicate:"+d.Name]++
+			p.mu.Unlock()
+			return
+		}
+	}
+	p.mu.Unlock()
 	confirmed, cstderr := false, ""
 	spawns := 0
 	if !hung {
@@ -563,6 +597,11 @@ func (p *parent) crashDKG(ui int, path []int, stderr string, hung bool) {
 			}
 		}
 		stderr = cstderr
+	}
+	if confirmed {
+		p.mu.Lock()
+		p.crashMinDKG[d.Name] = append(p.crashMinDKG[d.Name], min)
+		p.mu.Unlock()
 	}
 	lab := d.labels(min)
 	key := fmt.Sprintf("%s:%s.%s", kind, strings.TrimPrefix(d.Name, "dkg:"), lab[len(lab)-1])
@@ -778,8 +817,9 @@ func (p *parent) serve(slot int, wg *sync.WaitGroup, ws []*worker, wsMu *sync.Mu
 				localCalls++
 				localOut[l[2:]]++
 				p.mu.Lock()
-				if p.samples < 8 && curK > 0 && curK%7 == 3 {
+				if p.samples < 8 && curK > 0 && curK%7 == 3 && !p.sampled[f.Name] {
 					p.samples++
+					p.sampled[f.Name] = true
 					p.mu.Unlock()
 					p.run.Sample(map[string]any{"case": f.caseID(f.tuples[curK]), "outcome": l[2:], "args": hexArgs(f, f.tuples[curK])})
 				} else {
@@ -924,7 +964,8 @@ func parentMain() {
 		run.Fatal("cannot build the case universe: %v", err)
 	}
 	p := &parent{run: run, u: u, tier: tier, deadline: time.Now().Add(budget), calls: map[string]int64{}, outcomes: map[string]int64{},
-		vioHits: map[string]int{}, vioFirst: map[string]bool{}}
+		vioHits: map[string]int{}, vioFirst: map[string]bool{}, sampled: map[string]bool{},
+		crashMin: map[string][][]int{}, crashMinDKG: map[string][][]int{}}
 	p.cond = sync.NewCond(&p.mu)
 	p.t0 = time.Now()
 
@@ -947,7 +988,7 @@ func parentMain() {
 			covered[c] = "state-space " + d.Proto.String()
 		}
 	}
-	var undriven, excluded, driven []string
+	undriven, excluded, driven := []string{}, []string{}, []string{}
 	seenExp := map[string]bool{}
 	for _, e := range exp {
 		seenExp[e.Name] = true
@@ -960,7 +1001,7 @@ func parentMain() {
 			undriven = append(undriven, fmt.Sprintf("%s (%s:%d)", e.Name, e.File, e.Line))
 		}
 	}
-	var stale []string
+	stale := []string{}
 	for c := range covered {
 		if !seenExp[c] {
 			stale = append(stale, c)
